@@ -105,7 +105,7 @@ def one_pair(ctx, alg, iso, cfg, name, kx, ky, lazy):
         cid = [name, op, list(kx), list(ky)]
         if not ctx.want(cid):
             continue
-        st, r = ops.check_generic(ctx, alg, iso, cfg, op, (kx, ky), cid)
+        st, r = ops.check_generic(ctx, alg, iso, cfg, op, (kx, ky), cid, total=True)
         if st in ('timeout', 'raised'):
             continue
         ctx.count('generic_' + op)
@@ -126,7 +126,7 @@ def one_pair(ctx, alg, iso, cfg, name, kx, ky, lazy):
         cid = [name, op, list(kx)]
         if not ctx.want(cid):
             continue
-        st, r = ops.check_generic(ctx, alg, iso, cfg, op, (kx,), cid)
+        st, r = ops.check_generic(ctx, alg, iso, cfg, op, (kx,), cid, total=True)
         if st in ('timeout', 'raised'):
             continue
         ctx.count('involution_cases')
